@@ -1960,3 +1960,59 @@ Proof.
       * rewrite upd_created_many. apply created_many_cs_nodup.
       * intros y Hy. rewrite upd_created_many in Hy. exact (created_many_cs_new t _ 0 y Hy).
 Qed.
+
+(* ---------- local calls and remote operations in any interleaving ---------- *)
+(* a step of a replica: an API call with its identifier, or the delivery of a remote operation *)
+Inductive dstep := SLocal (c : dcall) (i : opid) | SRemote (o : op).
+Definition live_root (s : jt) : Prop := jtomb s = false.
+
+Definition do_step (s : jt) (st : dstep) : option jt :=
+  match st with
+  | SLocal c i => if doc_validate s c then option_map fst (doc_local s c i) else None
+  | SRemote o => Some (doc_remote s o)
+  end.
+(* what the surrounding machinery guarantees at each step (C15: the local clock has passed every applied timestamp, an
+   identifier is never reused; C05/C07: an operation is delivered once): a local call is stamped with a bounded
+   timestamp newer than everything in the tree, a remote operation is new to the tree, and the values are canonical *)
+Definition step_ok (s : jt) (st : dstep) : Prop :=
+  match st with
+  | SLocal c i => ts_bounded (opid_ts i) /\ Forall (below (opid_ts i)) (nodes s) /\ canon_call c
+  | SRemote o => new_to (opid_ts (op_id o)) (all_cs s) /\ canon_op o /\ is_snap o = false
+  end.
+Fixpoint run_steps (s : jt) (sts : list dstep) : option jt :=
+  match sts with
+  | [] => Some s
+  | st :: r => match do_step s st with Some s' => run_steps s' r | None => None end
+  end.
+Fixpoint steps_ok (s : jt) (sts : list dstep) : Prop :=
+  match sts with
+  | [] => True
+  | st :: r => step_ok s st /\ match do_step s st with Some s' => steps_ok s' r | None => True end
+  end.
+
+Theorem step_keeps_structure s st s' :
+  SInv s -> live_root s -> step_ok s st -> do_step s st = Some s' ->
+  SInv s' /\ live_root s' /\
+  match st with SLocal c _ => jview s' = plain_call c (jview s) | SRemote _ => True end.
+Proof.
+  intros [Hw Hn] Hl Hok. destruct st as [c i|o]; cbn [do_step step_ok] in *.
+  - destruct Hok as [Hb [Hbel Hc]]. destruct (doc_validate s c) eqn:Hv; [|discriminate].
+    destruct (doc_local s c i) as [[s1 o1]|] eqn:Hd; [|discriminate]. cbn [option_map fst]. intros [= <-].
+    destruct (doc_local_step s c i s1 o1 Hb (conj Hw (conj Hl (conj Hn Hbel))) Hc Hv Hd) as [V [W [T [N _]]]].
+    split; [split; assumption|]. split; [exact T|exact V].
+  - destruct Hok as [Hnew [Hc Hs]]. intros [= <-].
+    destruct (doc_remote_keeps_structure s o (conj Hw Hn) Hnew Hc) as [K1 K2]. split; [exact K1|]. split; [|exact I].
+    unfold live_root. rewrite (K2 Hs). exact Hl.
+Qed.
+
+(* every reachable state of a replica — any interleaving of API calls and deliveries — is well-formed with pairwise
+   distinct creation timestamps and a live root; in particular every later API call and every later patch script acts
+   on the readable value as the plain JSON operation (doc_local_step, patches_refine) *)
+Theorem steps_keep_structure : forall sts s s',
+  SInv s -> live_root s -> steps_ok s sts -> run_steps s sts = Some s' -> SInv s' /\ live_root s'.
+Proof.
+  induction sts as [|st r IH]; intros s s' HI Hl Hok; cbn [run_steps steps_ok] in *.
+  - intros [= <-]. auto.
+  - destruct Hok as [H1 H2]. destruct (do_step s st) as [s1|] eqn:E; [|discriminate]. intros Hr.
+    destruct (step_keeps_structure s st s1 HI Hl H1 E) as [K1 [K2 _]]. exact (IH s1 s' K1 K2 H2 Hr).
+Qed.
